@@ -391,6 +391,31 @@ def compile_all(reqs, timeout=10.0, nworkers=None):
         t.start()
     for t in ts_:
         t.join()
+    # "promptly" must not depend on the load of the machine: a watchdog timeout is confirmed with four times the budget,
+    # a few at a time
+    slow = [i for i, r in enumerate(results) if r is not None and r.get("outcome") == "timeout"]
+    if slow:
+        it = iter(slow)
+
+        def confirm():
+            w = _Worker()
+            try:
+                while True:
+                    with lock:
+                        i = next(it, None)
+                    if i is None:
+                        return
+                    r = w.request(reqs[i], timeout * 4)
+                    if r.get("outcome") != "timeout":
+                        r["first_attempt"] = f"no answer within {timeout}s under load"
+                    results[i] = r
+            finally:
+                w.stop()
+        cs = [threading.Thread(target=confirm) for _ in range(min(4, len(slow)))]
+        for t in cs:
+            t.start()
+        for t in cs:
+            t.join()
     return results
 
 
